@@ -29,7 +29,7 @@ impl SubCheck for Sc {
         dispatch::<()>(c, false, cov, "c14")
     }
     fn mandatory(&self) -> Vec<&'static str> {
-        vec!["consistent", "inconsistent", "in_flight_needed", "ill_formed", "has_in_flight", "spec_register", "spec_write_once_register", "spec_vec", "spec_generated_table"]
+        vec!["consistent", "inconsistent", "in_flight_needed", "ill_formed", "has_in_flight", "spec_register", "spec_write_once_register", "spec_vec", "spec_generated_table", "spec_nondeterministic_pool"]
     }
 }
 
@@ -79,6 +79,7 @@ impl SubCheck for LinImpliesSc {
             AnySpec::Wo(s) => lin_implies_sc(s, c, cov),
             AnySpec::Vec(s) => lin_implies_sc(s, c, cov),
             AnySpec::Table(s) => lin_implies_sc(s, c, cov),
+            AnySpec::Pool(s) => lin_implies_sc(s, c, cov),
         }
     }
     fn mandatory(&self) -> Vec<&'static str> {
@@ -167,6 +168,7 @@ impl SubCheck for CloneDiscipline {
             AnySpec::Wo(s) => go!(s, stateright::semantics::write_once_register::WORegister<u8>),
             AnySpec::Vec(s) => go!(s, Vec<u8>),
             AnySpec::Table(s) => go!(s, TableSpec),
+            AnySpec::Pool(s) => go!(s, Pool),
         }
     }
     fn mandatory(&self) -> Vec<&'static str> {
